@@ -14,7 +14,9 @@ import NdnGen.C16
 #print axioms Ndn.C16.fmtInstant_inj
 #print axioms Ndn.C16.fmt_domain
 #print axioms Ndn.C16.derive_instants
+#print axioms Ndn.C16.derive_zone_independent
 #print axioms Ndn.C16.validity_encodes_requested_instants
+#print axioms Ndn.C16.validity_period_length
 #print axioms Ndn.C16.req_instants
 #print axioms Ndn.C16.self_instants
 #print axioms Ndn.C16.issued_validity
